@@ -10,7 +10,7 @@ use crate::recipes::*;
 use pairing_plus::bls12_381 as crt;
 use pairing_plus::map_to_curve::MapToCurve;
 use pairing_plus::serdes::SerDes;
-use pairing_plus::{CurveAffine, CurveProjective, SubgroupCheck, Wnaf};
+use pairing_plus::{CurveAffine, CurveProjective, Wnaf};
 use proptest::prelude::*;
 use rand_core::SeedableRng;
 use refmodel::consts::C;
@@ -187,7 +187,7 @@ where
     info.class(if want { "member" } else if on { "on-curve-non-member" } else { "off-curve" });
     info.nt_if(on && !inf);
     let a = G::aff_raw(G::f_c(&x), G::f_c(&y), inf);
-    let got = cr("in_subgroup", || a.in_subgroup())?;
+    let got = cr("in_subgroup", || G::op_in_subgroup(&a))?;
     if got != want {
         return Err(format!("{} in_subgroup(x={:?}, y={:?}, infinity={}) = {} but (identity or (on curve and [r]P = O)) = {} [on curve: {}]", G::NAME, x, y, inf, got, want, on));
     }
@@ -216,6 +216,11 @@ pub enum Src {
     Hash(bool, u8, BytesR, BytesR),
     Map(URecipe),
     Map2(URecipe, Second),
+    /// checked decoding of an ARBITRARY byte string (C04 generator: small-order, off-curve, rescaled,
+    /// flag-edited, uniform ...): whatever is accepted must be a member; a rejection leaves the generator
+    DecodeAny(super::c04::DecCase),
+    /// the same through SerDes::deserialize
+    DeserAny(super::c04::DecCase),
 }
 
 #[derive(Clone, Debug, Serialize, Deserialize, PartialEq, Eq, Hash)]
@@ -278,6 +283,8 @@ fn src_strategy() -> BoxedStrategy<Src> {
         3 => (sub_base(), any::<bool>()).prop_map(|(b, c)| Src::Decode(b, c)),
         3 => (sub_base(), any::<bool>()).prop_map(|(b, c)| Src::Deser(b, c)),
         4 => (any::<bool>(), 0u8..4, msg_strategy(), dst_strategy()).prop_map(|(ro, e, m, d)| Src::Hash(ro, e, m, d)),
+        4 => super::c04::dec_case_strategy().prop_map(Src::DecodeAny),
+        4 => super::c04::dec_case_strategy().prop_map(Src::DeserAny),
         3 => u_strategy().prop_map(Src::Map),
         5 => (u_strategy(), second).prop_map(|(u, s)| Src::Map2(u, s)),
     ]
@@ -403,9 +410,9 @@ fn rp(k: &Z) -> crt::FrRepr {
 }
 
 /// the invariant on a value handed out by the safe API
-fn member<G: Grp>(what: &str, step: usize, v: &G::Proj) -> Result<(), String> {
-    let a = cr("into_affine", || v.into_affine())?;
-    if !cr("in_subgroup", || a.in_subgroup())? {
+fn member<G: Ops>(what: &str, step: usize, v: &G::Proj) -> Result<(), String> {
+    let a = cr("into_affine", || G::op_to_affine(v))?;
+    if !cr("in_subgroup", || G::op_in_subgroup(&a))? {
         return Err(format!("step {} ({}): the crate's own in_subgroup() is false for a value handed out by the safe API: {}", step, what, pt_brief(&proj_m::<G>(v))));
     }
     Ok(())
@@ -434,6 +441,27 @@ where
                 let pm = base_point::<G>(b).unwrap();
                 let bytes = encode(&pm, *compressed);
                 ("deserialize", cr("deserialize", || G::deser(&bytes, *compressed))?.map_err(|e| format!("deserialize of a valid image failed: {}", e))?)
+            }
+            Src::DecodeAny(d) | Src::DeserAny(d) => {
+                let compressed = d.fmt % 2 == 0;
+                let fmt = (if G::NAME == "G1" { 0 } else { 2 }) + if compressed { 0 } else { 1 };
+                let bytes = super::c04::build_bytes::<G>(&super::c04::DecCase { fmt, base: d.base.clone(), edits: d.edits.clone() });
+                let via_serdes = matches!(s, Src::DeserAny(_));
+                let got: Option<G::Proj> = if via_serdes {
+                    cr("deserialize", || G::deser(&bytes, compressed))?.ok()
+                } else {
+                    G::decode_bytes(compressed, &bytes, true)?.ok().map(|a| a.into_projective())
+                };
+                match got {
+                    Some(v) => {
+                        info.class(if via_serdes { "source:deserialize(arbitrary bytes)=accepted" } else { "source:decode(arbitrary bytes)=accepted" });
+                        (if via_serdes { "deserialize of arbitrary bytes" } else { "checked decode of arbitrary bytes" }, v)
+                    }
+                    None => {
+                        info.class("source:arbitrary bytes rejected");
+                        ("one()", cr("one", || G::Proj::one())?)
+                    }
+                }
             }
             Src::Hash(ro, e, m, d) => (if *ro { "hash_to_curve" } else { "encode_to_curve" }, cr("hash", || G::hash(expander_of(*e), *ro, &m.build(), &d.build()))?),
             Src::Map(u) => ("map_to_curve", cr("map_to_curve", || G::map(u))?),
@@ -464,16 +492,16 @@ where
                 let sub = matches!(op, SOp::Sub(_, _));
                 let o = cp[j];
                 let mut t = cp[i];
-                cr("add/sub", || if sub { t.sub_assign(&o) } else { t.add_assign(&o) })?;
+                cr("add/sub", || if sub { G::op_sub(&mut t, &o) } else { G::op_add(&mut t, &o) })?;
                 cp[i] = t;
                 mp[i] = if sub { curve.sub(&mp[i], &mp[j]) } else { curve.add(&mp[i], &mp[j]) };
                 (if sub { "sub_assign" } else { "add_assign" }, i)
             }
             SOp::AddMixed(i, j) => {
                 let (i, j) = (*i as usize % n, *j as usize % n);
-                let o = cr("into_affine", || cp[j].into_affine())?;
+                let o = cr("into_affine", || G::op_to_affine(&cp[j]))?;
                 let mut t = cp[i];
-                cr("add_assign_mixed", || t.add_assign_mixed(&o))?;
+                cr("add_assign_mixed", || G::op_add_mixed(&mut t, &o))?;
                 cp[i] = t;
                 mp[i] = curve.add(&mp[i], &mp[j]);
                 ("add_assign_mixed", i)
@@ -481,7 +509,7 @@ where
             SOp::Double(i) => {
                 let i = *i as usize % n;
                 let mut t = cp[i];
-                cr("double", || t.double())?;
+                cr("double", || G::op_double(&mut t))?;
                 cp[i] = t;
                 mp[i] = curve.dbl(&mp[i]);
                 ("double", i)
@@ -489,7 +517,7 @@ where
             SOp::Neg(i) => {
                 let i = *i as usize % n;
                 let mut t = cp[i];
-                cr("negate", || t.negate())?;
+                cr("negate", || G::op_neg(&mut t))?;
                 cp[i] = t;
                 mp[i] = curve.neg(&mp[i]);
                 ("negate", i)
@@ -498,7 +526,7 @@ where
                 let i = *i as usize % n;
                 let kz = k.build();
                 let mut t = cp[i];
-                cr("mul_assign", || t.mul_assign(rp(&kz)))?;
+                cr("mul_assign", || G::op_mul_assign(&mut t, rp(&kz)))?;
                 cp[i] = t;
                 mp[i] = curve.mul(&kz, &mp[i]);
                 ("mul_assign", i)
@@ -506,8 +534,8 @@ where
             SOp::AffMul(i, k) => {
                 let i = *i as usize % n;
                 let kz = k.build();
-                let a = cr("into_affine", || cp[i].into_affine())?;
-                cp[i] = cr("mul", || a.mul(rp(&kz)))?;
+                let a = cr("into_affine", || G::op_to_affine(&cp[i]))?;
+                cp[i] = cr("mul", || G::op_aff_mul(&a, rp(&kz)))?;
                 mp[i] = curve.mul(&kz, &mp[i]);
                 ("CurveAffine::mul", i)
             }
@@ -522,16 +550,16 @@ where
             SOp::Precomp3(i, k) | SOp::Precomp256(i, k) => {
                 let i = *i as usize % n;
                 let kz = k.build();
-                let a = cr("into_affine", || cp[i].into_affine())?;
+                let a = cr("into_affine", || G::op_to_affine(&cp[i]))?;
                 let three = matches!(op, SOp::Precomp3(_, _));
                 let mut pre = vec![G::Aff::zero(); if three { 3 } else { 256 }];
                 cp[i] = cr("precomp mul", || {
                     if three {
-                        a.precomp_3(&mut pre);
-                        a.mul_precomp_3(rp(&kz), &pre)
+                        G::op_precomp_3(&a, &mut pre);
+                        G::op_mul_precomp_3(&a, rp(&kz), &pre)
                     } else {
-                        a.precomp_256(&mut pre);
-                        a.mul_precomp_256(rp(&kz), &pre)
+                        G::op_precomp_256(&a, &mut pre);
+                        G::op_mul_precomp_256(&a, rp(&kz), &pre)
                     }
                 })?;
                 mp[i] = curve.mul(&kz, &mp[i]);
@@ -545,18 +573,18 @@ where
                 for (j, k) in terms {
                     let j = *j as usize % n;
                     let kz = k.build255();
-                    bases.push(cr("into_affine", || cp[j].into_affine())?);
+                    bases.push(cr("into_affine", || G::op_to_affine(&cp[j]))?);
                     scalars.push(scalar_limbs(&kz));
                     want = curve.add(&want, &curve.mul(&kz, &mp[j]));
                 }
                 let refs: Vec<&[u64; 4]> = scalars.iter().collect();
-                cp[i] = cr("sum_of_products", || G::Aff::sum_of_products(&bases, &refs))?;
+                cp[i] = cr("sum_of_products", || G::op_sum_of_products(&bases, &refs))?;
                 mp[i] = want;
                 ("sum_of_products", i)
             }
             SOp::EncDec(i, compressed) => {
                 let i = *i as usize % n;
-                let a = cr("into_affine", || cp[i].into_affine())?;
+                let a = cr("into_affine", || G::op_to_affine(&cp[i]))?;
                 let bytes = G::encode_aff(&a, *compressed)?;
                 let back = G::decode_bytes(*compressed, &bytes, true)?.map_err(|e| format!("step {}: checked decoding of the crate's own encoding failed: {:?}", step, e))?;
                 cp[i] = back.into_projective();
@@ -571,7 +599,7 @@ where
             SOp::BatchNorm(idx) => {
                 let idx: Vec<usize> = idx.iter().map(|i| *i as usize % n).collect();
                 let mut v: Vec<G::Proj> = idx.iter().map(|i| cp[*i]).collect();
-                cr("batch_normalization", || G::Proj::batch_normalization(&mut v))?;
+                cr("batch_normalization", || G::op_batch(&mut v))?;
                 for (k, i) in idx.iter().enumerate() {
                     cp[*i] = v[k];
                     if proj_m::<G>(&cp[*i]) != mp[*i] {
@@ -609,10 +637,10 @@ pub fn def() -> PropDef {
         rule: "predicate: coordinate pairs built with transmute - arbitrary pairs, points of every class of the curve (subgroup, full-curve, every small prime order dividing the cofactor, order l*r, negated, same-y), points on y^2 = x^3 + b'' for six other b'' (twists / wrong curves incl. the crate's own b = 24 and b = 3 examples), y+1, swapped coordinates, infinity flag with arbitrary coordinates; oracle: identity or (on curve and [r]P = O) in the model. Closure: programs whose 4 registers are seeded only from safe sources (generator, zero, random(rng) from a generated seed, checked decode / deserialize of valid encodings, hash_to_curve / encode_to_curve, map_to_curve, map2_to_curve incl. u1 = +-u0 and constructed coinciding / inverse SSWU partners) followed by 0..9 safe operations (add, sub, mixed add, double, negate, every scalar-multiplication path, sum_of_products, encode->decode, serialize->deserialize, batch normalization); after every step the crate's in_subgroup() must hold, sources are tested by the model ([r]P = O on the curve), derived values must equal the model's group-law value. Non-trivial = on-curve pair (predicate) / program with >= 3 operations of >= 2 kinds (closure); distinct = distinct cases",
         needs_pairing: false,
         subs: vec![
-            Box::new(Sub { name: "g1-predicate", rule: "G1Affine::in_subgroup on arbitrary coordinate pairs vs model predicate", quick: 4000, thorough: 120_000, strategy: || boxed(pred_strategy(0)), check: check_pred_any }),
-            Box::new(Sub { name: "g2-predicate", rule: "G2Affine::in_subgroup on arbitrary coordinate pairs vs model predicate", quick: 1500, thorough: 40_000, strategy: || boxed(pred_strategy(1)), check: check_pred_any }),
-            Box::new(Sub { name: "g1-closure", rule: "G1 safe-API programs: every handed-out value is a member", quick: 700, thorough: 25_000, strategy: || boxed(prog_strategy(0)), check: check_safe }),
-            Box::new(Sub { name: "g2-closure", rule: "G2 safe-API programs: every handed-out value is a member", quick: 250, thorough: 8_000, strategy: || boxed(prog_strategy(1)), check: check_safe }),
+            Box::new(Sub { name: "g1-predicate", rule: "G1Affine::in_subgroup on arbitrary coordinate pairs vs model predicate", quick: 8_000, thorough: 120_000, strategy: || boxed(pred_strategy(0)), check: check_pred_any }),
+            Box::new(Sub { name: "g2-predicate", rule: "G2Affine::in_subgroup on arbitrary coordinate pairs vs model predicate", quick: 3_000, thorough: 40_000, strategy: || boxed(pred_strategy(1)), check: check_pred_any }),
+            Box::new(Sub { name: "g1-closure", rule: "G1 safe-API programs: every handed-out value is a member", quick: 1_400, thorough: 25_000, strategy: || boxed(prog_strategy(0)), check: check_safe }),
+            Box::new(Sub { name: "g2-closure", rule: "G2 safe-API programs: every handed-out value is a member", quick: 500, thorough: 8_000, strategy: || boxed(prog_strategy(1)), check: check_safe }),
         ],
         assumptions: {
             let mut v = COMMON_ASSUMPTIONS.to_vec();
